@@ -99,3 +99,39 @@ let () =
          then "match" else "pred=" ^ pred_s
        | _ -> "pred=" ^ pred_s)
     | _ -> "?args")
+
+(* pc_sim T SL GL n W P events : runs the composition with the real reader machines (cstep) and the
+   abstract composition (astep) side by side on the same schedule; events that are not enabled are
+   skipped (they must be disabled in both); after every step abs_of (concrete) must equal the abstract
+   state.  Result "agree:<bad>" (bad = 1 when an error was reached, comparison stops there). *)
+let () =
+  register "pc_sim" (function [t; sl; gl; n; w; p; evs] ->
+      let ni s = nat_of_int (int_of_string s) in
+      let cf = { cT = ni t; cSL = ni sl; cGL = ni gl; cP3 = true } in
+      let n = ni n and w = ni w and p = ni p in
+      let s = ref (cinit n) and a = ref (ainit n) in
+      let res = ref "" in
+      let steps = ref 0 in
+      String.iteri (fun i ch ->
+          if !res = "" then begin
+            let x = match ch with
+              | 'T' -> XTick | 'P' -> XPause | 'R' -> XResume | 'C' -> XSCall | 'W' -> XSWrite
+              | 'U' -> XSPush | 'r' -> XRCall | 'a' -> XATake | _ -> failwith "ev" in
+            match cstep cf n w p !s x, astep cf n w p !a x with
+            | None, None -> ()
+            | Some s', Some a' ->
+              incr steps;
+              if a'.xBad then begin
+                if (abs_of s').xBad then res := "agree:1" else res := Printf.sprintf "bad-only-abstract@%d" i
+              end else if abs_of s' = a' then (s := s'; a := a')
+              else res := Printf.sprintf "mismatch@%d" i
+            | Some _, None -> res := Printf.sprintf "abstract-disabled@%d" i
+            | None, Some _ -> res := Printf.sprintf "concrete-disabled@%d" i
+          end) evs;
+      if !res = "" then "agree:0" else !res
+    | _ -> "?args")
+let () =
+  register "pc_sim_any" (fun args ->
+      match Hashtbl.find_opt Util.table "pc_sim" with
+      | Some f -> let r = f args in if r = "agree:0" || r = "agree:1" then "agree" else r
+      | None -> "?")
